@@ -780,6 +780,16 @@ def fusion(
     except StopIteration:
         return
     while True:
+        if type(instr1).fuse is Instruction.fuse:
+            # instr1 can never fuse with its successor, so it must not depend
+            # on the bytes that follow it: yield before looking ahead.
+            yield instr1, addr1
+            try:
+                instr1, addr1 = next(instr_iter)
+            except (StopIteration, NotImplementedError):
+                break
+            continue
+
         try:
             instr2, addr2 = next(instr_iter)
         except (StopIteration, NotImplementedError):
